@@ -16,6 +16,8 @@ git -C "$VERIF" archive HEAD | tar -x -C "$VCOPY"; rm -rf "$VCOPY/replays" "$VCO
 for n in "${names[@]}"; do
     d="$VERIF/seeded/$n"; [ -f "$d/patch.diff" ] || continue
     prop=${n%%-*}
+    # a change whose effect belongs to another property's ground names the check that decides it
+    cp=$(python3 -c "import json,sys; print(json.load(open(sys.argv[1])).get('check_property',''))" "$d/meta.json" 2>/dev/null); [ -n "$cp" ] && prop=$cp
     git -C "$WT" reset -q --hard HEAD; git -C "$WT" clean -q -fd src include 2>/dev/null
     if ! git -C "$WT" apply "$d/patch.diff" 2>/dev/null; then
         # written against an older tree: try a three-way merge; a conflict means the code it changes was repaired since
